@@ -59,6 +59,41 @@ CLAIMED = {
    note="Trusted: Coq kernel, translator (11 regex ASTs, three domain lists, HOMEPAGE_PATHS, HTML_LIKE_EXTENSIONS), extraction, driver, harness; os.path.splitext transcription; idna oracle. Six genuine defects of the pinned tree (look-alike hosts, path / userinfo text deciding) were repaired by fix: commits.",
    technique="Coq instantiation of the hostname-trie theorem + structural non-interference lemmas + differential correspondence + membership decider",
    ref="6 C18"),
+ "C01": dict(
+   text="PARTIAL. The statement (the re-parsed result denotes the same resource: scheme, decoded userinfo, host up to case / IDNA, effective port, resolved decoded segments with trailing slash, decoded query items in order, decoded fragment) is decided by a resource decider applied to the implementation's output over the property's grammar x quoted x strip_fragment x default_protocol, and by correspondence of the extracted model with the implementation on the same inputs (string and unsplit=False). Proved in Coq: the effective port is never changed for any scheme and port; the string form is urlunsplit of the unsplit=False form; witnesses computed on the model. The unescaping clauses are C14's theorems / deciders.",
+   note='Trusted: Coq kernel, translator (regex ASTs, query tables, ISO codes, PSL), extraction, driver, harness; urllib / str models (leaf correspondence); idna / ipaddress oracles; platform_aware=True is exercised on the implementation only (the platform parsers are not in the model).',
+   technique='Coq model + component lemmas + resource decider on re-parsed output + differential correspondence',
+   ref='6 C01'),
+ "C02": dict(
+   text="PARTIAL. Idempotence, invariance under every spelling transformation of the statement (each alone on structured urls) and the four mode round trips are decided on the implementation and the model is compared on the same inputs. Proved in Coq: port dropping, escape upper-casing and safe quoting are idempotent; the six historical witnesses are fixed points on the model in both modes. Known finding F-C7 (class raw_unsafe): with a dangling '%' or a raw sub-delimiter the quoted-mode idempotence / mode round trip fail.",
+   note='Trusted: Coq kernel, translator (regex ASTs, query tables, ISO codes, PSL), extraction, driver, harness; urllib / str models (leaf correspondence); idna / ipaddress oracles; platform_aware=True is exercised on the implementation only (the platform parsers are not in the model).',
+   technique='Coq model + component lemmas + transformation decider + differential correspondence',
+   ref='6 C02'),
+ "C03": dict(
+   text='PARTIAL. The composition equalities normalize(canonicalize(u)) = normalize(u), fingerprint(canonicalize(u)) = fingerprint(u), fingerprint(normalize(u)) = fingerprint(u) and the implication on colliding pairs (collision classes built from spellings and irrelevant variants) are decided on the implementation, x quoted x platform_aware x strip_suffix; the three models are tied by correspondence in C01 / C05 / C06. Proved: fingerprint_url factors through normalize_url of the lower-cased url. Known finding F-C7 applies to quoted=True.',
+   note='Trusted: Coq kernel, translator (regex ASTs, query tables, ISO codes, PSL), extraction, driver, harness; urllib / str models (leaf correspondence); idna / ipaddress oracles; platform_aware=True is exercised on the implementation only (the platform parsers are not in the model).',
+   technique='Coq model + collision-class decider + differential correspondence',
+   ref='6 C03'),
+ "C04": dict(
+   text="PARTIAL. Invariance of normalize_url under every documented-irrelevant transformation (alone, plus C02 spellings, tracking items at random positions, all permutations of 2-4 items, '&amp;'), with default options and quoted=True, is decided on the implementation; model correspondence in C05. Proved in Coq: redirection inference is exactly a pre-step (normalize_url(u) = normalize_url(infer_redirection(u), infer_redirection=False) whenever the url parses).",
+   note='Trusted: Coq kernel, translator (regex ASTs, query tables, ISO codes, PSL), extraction, driver, harness; urllib / str models (leaf correspondence); idna / ipaddress oracles; platform_aware=True is exercised on the implementation only (the platform parsers are not in the model).',
+   technique='Coq model + pre-step theorem + transformation decider + differential correspondence',
+   ref='6 C04'),
+ "C05": dict(
+   text="Proved in Coq for every url and every option setting: normalize_url never raises (the model's only abnormal outcome is an unanswered oracle question) and an unparseable url (parser or port ValueError) is returned unchanged. PARTIAL: 'each part of the result comes from the input' (host = input host minus whole irrelevant labels / 'amp-', non-default port kept, query a sub-list) and 'an option switched off preserves its part' are decided on the implementation over uniformly sampled option settings; the extracted model is compared with the implementation (string and unsplit=False) on the same cases.",
+   note='Trusted: Coq kernel, translator (regex ASTs, query tables, ISO codes, PSL), extraction, driver, harness; urllib / str models (leaf correspondence); idna / ipaddress oracles; platform_aware=True is exercised on the implementation only (the platform parsers are not in the model).',
+   technique='Coq totality proof + component deciders + differential correspondence over sampled option space',
+   ref='6 C05'),
+ "C06": dict(
+   text="PARTIAL. Invariance of fingerprint_url under the fingerprint-irrelevant family (C04 family, case flips, ports, 'xx' / 'xx-YY' language labels from the generated ISO table, gl / hl items, suffix swaps among bundled public suffixes with strip_suffix) x strip_suffix x platform_aware (non-platform hosts), the shape of the result and the negative cases are decided on the implementation; extracted model compared on base urls. Proved: the fingerprint never carries a scheme.",
+   note='Trusted: Coq kernel, translator (regex ASTs, query tables, ISO codes, PSL), extraction, driver, harness; urllib / str models (leaf correspondence); idna / ipaddress oracles; platform_aware=True is exercised on the implementation only (the platform parsers are not in the model).',
+   technique='Coq model + transformation decider + differential correspondence',
+   ref='6 C06'),
+ "C07": dict(
+   text="PARTIAL. Proved in Coq: get_normalized_hostname / get_fingerprinted_hostname are normalize_hostname / fingerprint_hostname applied to the host the standard parser sees after a scheme is ensured. That this is the host of normalize_url / fingerprint_url (unsplit=False), that the bare-hostname forms agree, that get_hostname is the parser's host and that the three stem variants are the stems of the url-level results are decided on the implementation; the six helper models are compared with the implementation.",
+   note='Trusted: Coq kernel, translator (regex ASTs, query tables, ISO codes, PSL), extraction, driver, harness; urllib / str models (leaf correspondence); idna / ipaddress oracles; platform_aware=True is exercised on the implementation only (the platform parsers are not in the model).',
+   technique='Coq model + unfolding theorems + agreement decider + differential correspondence',
+   ref='6 C07'),
 }
 
 NOT_YET = {}
